@@ -173,40 +173,95 @@ package selector
 //@   ensures[C07] r != nil && (s.limit.mode == RecursionLimit_None || s.limit.depth >= 2) ==> unbox(r, "ExploreRecursive").limit.mode == s.limit.mode && (unbox(r, "ExploreRecursive").limit.depth == s.limit.depth || (s.limit.mode == RecursionLimit_Depth && unbox(r, "ExploreRecursive").limit.depth == s.limit.depth - 1))
 //@   ensures[C07] r != nil && s.limit.mode == RecursionLimit_None ==> unbox(r, "ExploreRecursive").limit.depth == s.limit.depth
 
-// ---- compilation: never panics on any node obeying the Node interface contract (C10) ----
+// ---- compilation: never panics on any node obeying the Node interface contract (C10), and the
+//      compiled clause is the one the selector document states (C07): the fields of the clause are
+//      the values of the document's fields, sub-selectors are compiled from the sub-documents under
+//      the stated keys and stored in the stated places ----
+//@ pure func fieldv(v datamodel.Val, k string) datamodel.Val = datamodel.vchild(v, datamodel.vidx(v, k))
+//@ pure func hasfield(v datamodel.Val, k string) bool = 0 <= datamodel.vidx(v, k) && datamodel.vidx(v, k) < datamodel.vlen(v)
 
 //@ func (ParseContext).ParseSelector(n) (r, err)
 //@   requires n != nil && (forall i mathint :: 0 <= i && i < len(pc.parentStack) ==> pc.parentStack[i] != nil)
 //@   assigns foreign
 //@   ensures[C10] err == nil ==> r != nil
+//   the single key of the keyed union selects the clause parser, which gets the single value
+//@   before ParseExploreFields assert[C07] datamodel.vkeystr(n.val, 0) == SelectorKey_ExploreFields && carg1.val == datamodel.vchild(n.val, 0) && carg0 == pc
+//@   before ParseExploreAll assert[C07] datamodel.vkeystr(n.val, 0) == SelectorKey_ExploreAll && carg1.val == datamodel.vchild(n.val, 0) && carg0 == pc
+//@   before ParseExploreIndex assert[C07] datamodel.vkeystr(n.val, 0) == SelectorKey_ExploreIndex && carg1.val == datamodel.vchild(n.val, 0) && carg0 == pc
+//@   before ParseExploreRange assert[C07] datamodel.vkeystr(n.val, 0) == SelectorKey_ExploreRange && carg1.val == datamodel.vchild(n.val, 0) && carg0 == pc
+//@   before ParseExploreUnion assert[C07] datamodel.vkeystr(n.val, 0) == SelectorKey_ExploreUnion && carg1.val == datamodel.vchild(n.val, 0) && carg0 == pc
+//@   before ParseExploreRecursive assert[C07] datamodel.vkeystr(n.val, 0) == SelectorKey_ExploreRecursive && carg1.val == datamodel.vchild(n.val, 0) && carg0 == pc
+//@   before ParseExploreRecursiveEdge assert[C07] datamodel.vkeystr(n.val, 0) == SelectorKey_ExploreRecursiveEdge && carg1.val == datamodel.vchild(n.val, 0) && carg0 == pc
+//@   before ParseExploreInterpretAs assert[C07] datamodel.vkeystr(n.val, 0) == SelectorKey_ExploreInterpretAs && carg1.val == datamodel.vchild(n.val, 0) && carg0 == pc
+//@   before ParseMatcher assert[C07] datamodel.vkeystr(n.val, 0) == SelectorKey_Matcher && carg1.val == datamodel.vchild(n.val, 0)
+//@   ensures[C07] err == nil ==> datamodel.vkind(n.val) == datamodel.Kind_Map && datamodel.vlen(n.val) == 1
 //@ func (ParseContext).ParseExploreAll(n) (r, err)
 //@   requires n != nil && (forall i mathint :: 0 <= i && i < len(pc.parentStack) ==> pc.parentStack[i] != nil)
 //@   assigns foreign
 //@   ensures[C10] err == nil ==> r != nil
+//@   before ParseSelector assert[C07] carg1.val == fieldv(n.val, SelectorKey_Next) && carg0 == pc
+//@   after ParseSelector let sub = result0
+//@   ensures[C07] err == nil ==> dyntype(r, "ExploreAll") && unbox(r, "ExploreAll").next == sub && sub != nil
 //@ func (ParseContext).ParseExploreIndex(n) (r, err)
 //@   requires n != nil && (forall i mathint :: 0 <= i && i < len(pc.parentStack) ==> pc.parentStack[i] != nil)
 //@   assigns foreign
 //@   ensures[C10] err == nil ==> r != nil
+//@   before ParseSelector assert[C07] carg1.val == fieldv(n.val, SelectorKey_Next) && carg0 == pc
+//@   after ParseSelector let sub = result0
+//@   ensures[C07] err == nil ==> dyntype(r, "ExploreIndex") && unbox(r, "ExploreIndex").next == sub && sub != nil
+//@   ensures[C07] err == nil ==> unbox(r, "ExploreIndex").interest[0].i == datamodel.vint(fieldv(n.val, SelectorKey_Index)) && datamodel.vkind(fieldv(n.val, SelectorKey_Index)) == datamodel.Kind_Int
 //@ func (ParseContext).ParseExploreRange(n) (r, err)
 //@   requires n != nil && (forall i mathint :: 0 <= i && i < len(pc.parentStack) ==> pc.parentStack[i] != nil)
 //@   assigns foreign
 //@   ensures[C10] err == nil ==> r != nil
+//@   before ParseSelector assert[C07] carg1.val == fieldv(n.val, SelectorKey_Next) && carg0 == pc
+//@   after ParseSelector let sub = result0
+//@   ensures[C07] err == nil ==> dyntype(r, "ExploreRange") && unbox(r, "ExploreRange").next == sub && sub != nil
+//@   ensures[C07] err == nil ==> unbox(r, "ExploreRange").start == datamodel.vint(fieldv(n.val, SelectorKey_Start)) && unbox(r, "ExploreRange").end == datamodel.vint(fieldv(n.val, SelectorKey_End)) && unbox(r, "ExploreRange").start < unbox(r, "ExploreRange").end
+//   the interests are exactly the indices of the range, in order (the walk visits nothing else)
+//@   ensures[C07] err == nil ==> len(unbox(r, "ExploreRange").interest) == unbox(r, "ExploreRange").end - unbox(r, "ExploreRange").start
+//@   ensures[C07] err == nil ==> forall k mathint :: 0 <= k && k < len(unbox(r, "ExploreRange").interest) ==> unbox(r, "ExploreRange").interest[k].i == unbox(r, "ExploreRange").start + k
+//@   loop 0 assigns x, cells(x.interest)
+//@   loop 0 invariant startValue <= i && i <= endValue && len(x.interest) == i - startValue && x.start == startValue && x.end == endValue && x.next == selector && fresh(x.interest)
+//@   loop 0 invariant forall k mathint :: 0 <= k && k < len(x.interest) ==> x.interest[k].i == startValue + k
 //@ func (ParseContext).ParseExploreFields(n) (r, err)
 //@   requires n != nil && (forall i mathint :: 0 <= i && i < len(pc.parentStack) ==> pc.parentStack[i] != nil)
 //@   assigns foreign
 //@   loop 0 assigns foreign, x, itr.pos
 //@   loop 0 invariant itr != nil && x.selections != nil && fresh(x.selections) && fresh(x.interests)
 //@   ensures[C10] err == nil ==> r != nil
+//   one interest and one selection per entry of the fields map, under that entry's key, in order;
+//   each sub-selector is compiled from that entry's value
+//@   before ParseSelector assert[C07] carg1.val == datamodel.vchild(fieldv(n.val, SelectorKey_Fields), itr.pos - 1) && carg0 == pc
+//   (the *contents* of the interest list and of the selection table across iterations are not stated:
+//   they live in heap objects this function allocated, which the foreign-frame abstraction of the
+//   recursive ParseSelector call does not protect; each iteration's segment is checked where it is made)
+//@   before PathSegmentOfString assert[C07] carg0 == datamodel.vkeystr(itr.src, itr.pos - 1)
+//@   loop 0 invariant itr.src == fieldv(n.val, SelectorKey_Fields) && datamodel.vkind(itr.src) == datamodel.Kind_Map && len(x.interests) == itr.pos && 0 <= itr.pos && itr.pos <= datamodel.vlen(itr.src)
+//@   ensures[C07] err == nil ==> dyntype(r, "ExploreFields") && len(unbox(r, "ExploreFields").interests) == datamodel.vlen(fieldv(n.val, SelectorKey_Fields))
 //@ func (ParseContext).ParseExploreUnion(n) (r, err)
 //@   requires n != nil && (forall i mathint :: 0 <= i && i < len(pc.parentStack) ==> pc.parentStack[i] != nil)
 //@   assigns foreign
 //@   loop 0 assigns foreign, x, itr.pos
 //@   loop 0 invariant itr != nil && fresh(x.Members)
 //@   ensures[C10] err == nil ==> r != nil
+//   one member per element of the list, compiled from that element, none nil
+//@   before ParseSelector assert[C07] carg1.val == datamodel.vchild(n.val, itr.pos - 1) && carg0 == pc
+//@   loop 0 invariant itr.src == n.val && len(x.Members) == itr.pos && 0 <= itr.pos && itr.pos <= datamodel.vlen(itr.src)
+//@   ensures[C07] err == nil ==> dyntype(r, "ExploreUnion") && len(unbox(r, "ExploreUnion").Members) == datamodel.vlen(n.val)
 //@ func (ParseContext).ParseExploreRecursive(n) (r, err)
 //@   requires n != nil && (forall i mathint :: 0 <= i && i < len(pc.parentStack) ==> pc.parentStack[i] != nil)
 //@   assigns foreign
 //@   ensures[C10] err == nil ==> r != nil
+//   sequence and current are both the selector compiled from the ":>" field, the limit is the one
+//   parsed from the "l" field, the stop condition (if any) the one parsed from the "!" field
+//@   before ParseSelector assert[C07] carg1.val == fieldv(n.val, SelectorKey_Sequence)
+//@   before parseLimit assert[C07] carg0.val == fieldv(n.val, SelectorKey_Limit)
+//@   before ParseCondition assert[C07] carg1.val == fieldv(n.val, SelectorKey_StopAt)
+//@   after ParseSelector let sub = result0
+//@   after parseLimit let lim = result0
+//@   ensures[C07] err == nil ==> dyntype(r, "ExploreRecursive") && unbox(r, "ExploreRecursive").sequence == sub && unbox(r, "ExploreRecursive").current == sub && sub != nil && unbox(r, "ExploreRecursive").limit == lim
+//@   ensures[C07] err == nil ==> (unbox(r, "ExploreRecursive").stopAt != nil) == hasfield(n.val, SelectorKey_StopAt)
 //@ interface ParsedParent.Link(s) (r)
 //@   assigns foreign
 //@ func (ParseContext).ParseExploreRecursiveEdge(n) (r, err)
@@ -224,13 +279,19 @@ package selector
 //@   requires n != nil
 //@   assigns foreign
 //@   ensures[C10] err == nil ==> r != nil
+//   a matcher has a subset exactly when the document has one, with the stated bounds
+//@   ensures[C07] err == nil ==> dyntype(r, "Matcher") && (unbox(r, "Matcher").Slice != nil) == hasfield(n.val, SelectorKey_Subset)
+//@   ensures[C07] err == nil && unbox(r, "Matcher").Slice != nil ==> unbox(r, "Matcher").Slice.From == datamodel.vint(fieldv(fieldv(n.val, SelectorKey_Subset), SelectorKey_From)) && unbox(r, "Matcher").Slice.To == datamodel.vint(fieldv(fieldv(n.val, SelectorKey_Subset), SelectorKey_To))
 //@ func (ParseContext).ParseCondition(n) (r, err)
 //@   requires n != nil
 //@   assigns foreign
+//@   ensures[C07,C10] err == nil ==> r.mode == ConditionMode_Link && r.match != nil && r.match.val == datamodel.vchild(n.val, 0) && datamodel.vkind(r.match.val) == datamodel.Kind_Link
 //@ func parseLimit(n) (r, err)
 //@   requires n != nil
 //@   assigns nothing
 //@   ensures[C07,C10] err == nil ==> r.mode == RecursionLimit_None || r.mode == RecursionLimit_Depth
+//@   ensures[C07] err == nil ==> (r.mode == RecursionLimit_Depth) == (datamodel.vkeystr(n.val, 0) == SelectorKey_LimitDepth) && (r.mode == RecursionLimit_None) == (datamodel.vkeystr(n.val, 0) == SelectorKey_LimitNone)
+//@   ensures[C07] err == nil && r.mode == RecursionLimit_Depth ==> r.depth == datamodel.vint(datamodel.vchild(n.val, 0))
 //@ func (ParseContext).PushParent(parent) (r)
 //@   assigns nothing
 //@   ensures[C10] len(r.parentStack) == len(pc.parentStack) + 1 && r.parentStack[0] == parent
